@@ -2,12 +2,15 @@
 SPEC = dict(
     title="Backups are complete, point-in-time consistent copies",
     pkg="./http", files=["http/c21_verif_test.go"],
-    rule="12 format/flag combinations (binary|sql|delete x vacuum x compress) x {leader's API, another node forwarding through the real cluster client/service} x 3 (quick) / 40 (thorough) "
+    rule="12 format/flag combinations (binary|sql|delete x vacuum x compress) x {leader's API, another node forwarding through the real cluster client/service} x 2 (quick) / 40 (thorough) "
          "repetitions while a writer commits transactions preserving a cross-table invariant (non-trivial: at least one transaction was in flight during the backup); then the deterministic "
          "stalled-consumer family: Store.Backup into a harness writer that stalls after the first chunk (sql: after the first row), for {WAL empty at start, WAL non-empty} x {binary, binary+compress, "
          "vacuum, delete, sql, sql+compress} x 1 (quick) / 10 (thorough): while stalled one transaction commits and Store.Snapshot(0) is called (refused by the gate / succeeded / other error recorded, "
-         "together with the owner of snapshotCAS), then the writer is released and the result judged like any backup (non-trivial: the consumer did stall); then for the 8 valid "
-         "combinations the inter-node reply is cut after N bytes: 16 positions (quick: inside the header, right after it, 0.1%..99.9% of the stream, the last byte, no cut) / 207 (thorough: every 0.5%) "
+         "together with the owner of snapshotCAS), then the writer is released and the result judged like any backup (non-trivial: the consumer did stall); then the failing-destination family on the "
+         "quiescent database: for the 8 valid combinations Store.Backup and the HTTP handler (ServeHTTP into a harness ResponseWriter) write into a destination that accepts N bytes and then fails like a full "
+         "disk, N = stream length minus {1,2,4,8,9,12,16,17,64,256,1024,2048,4095,4096,5000} plus {0,1,10,4096} and 'never' (quick; sparser for uncompressed and for the handler) / the last 300 positions, "
+         "every 64th of the last 9000 and 100 random ones (thorough) (non-trivial: the destination fails before the end); then for the 8 valid "
+         "combinations the inter-node reply is cut after N bytes: 12 positions (quick: inside the header, right after it, 0.1%..99.9% of the stream, the last byte, no cut) / 207 (thorough: every 0.5%) "
          "(non-trivial: the cut falls inside the reply); distinct by scenario + flags + repetition / cut position",
     exhaustive=False,
     case_preamble="Open Scope N_scope.\n",
@@ -20,7 +23,8 @@ SPEC = dict(
                  "a backup whose pre-backup snapshot is skipped (error ignored by Store.Backup) is a version not older than the main file, possibly older than the request"],
     level_text="C21_binary_is_version_partial / C21_dump_is_version_partial / C21_online_is_version_partial hold for every schedule (any length) of commits, checkpoints and backup steps, any number of "
                "chunks/tables; C21_gate_held_during_copy (every reachable copying state of the binary backup holds the gate, whatever the WAL held at the start: a checkpoint attempt is refused and changes nothing), "
-               "C21_dump_never_holds_gate / C21_online_never_holds_gate; C21_cut_stream_is_error / C21_client_rule for every header, stream and cut position under the gzip hypothesis; C21_cut_is_never_200; "
+               "C21_dump_never_holds_gate / C21_online_never_holds_gate; C21_destination_failure_is_error / _never_success (producer side: for every split of the stream into copy-loop writes and "
+               "gzip-Close writes and every room, success iff everything fitted); C21_cut_stream_is_error / C21_client_rule for every header, stream and cut position under the gzip hypothesis; C21_cut_is_never_200; "
                "partial = SQLite's isolation rules are the model's hypotheses. The *_refuted theorems document the code before the three fixes.",
     level_note="Model = Store.Backup/db.Dump/db.Backup as phase machines against an adversarial schedule + stream framing + HTTP status rule, for the tree with the fixes "
                ".work/fixes/C21-*.patch applied; tie = real single-node store, cluster service/client, two HTTP services; oracle = scratch SQLite load of every successful backup.",
